@@ -102,6 +102,15 @@ fn path_of(tcx: TyCtxt<'_>, did: DefId) -> String {
 
 /// canonical, crate-independent id: crate::mod::..::[Type|Type@Trait]::name
 fn canon(tcx: TyCtxt<'_>, did: DefId) -> String {
+    canon_opt(tcx, did, true)
+}
+
+/// canonical id without the trait type arguments (`Type@Trait::name`): what rule patterns are written against
+fn canon_s(tcx: TyCtxt<'_>, did: DefId) -> String {
+    canon_opt(tcx, did, false)
+}
+
+fn canon_opt(tcx: TyCtxt<'_>, did: DefId, with_targs: bool) -> String {
     let mut parts: Vec<String> = Vec::new();
     let mut cur = did;
     loop {
@@ -114,7 +123,16 @@ fn canon(tcx: TyCtxt<'_>, did: DefId) -> String {
             DefKind::Impl { .. } => {
                 let st = short_ty(tcx, tcx.type_of(cur).instantiate_identity().skip_norm_wip());
                 match tcx.impl_opt_trait_ref(cur) {
-                    Some(tr) => format!("{}@{}", st, tcx.item_name(tr.instantiate_identity().skip_norm_wip().def_id)),
+                    Some(tr) => {
+                        let tr = tr.instantiate_identity().skip_norm_wip();
+                        // trait type arguments (without Self) distinguish e.g. TryFrom<String> from TryFrom<&str>
+                        let targs: Vec<String> = tr.args.iter().skip(1).filter_map(|a| a.as_type()).map(|t| short_ty(tcx, t)).collect();
+                        if targs.is_empty() || !with_targs {
+                            format!("{}@{}", st, tcx.item_name(tr.def_id))
+                        } else {
+                            format!("{}@{}<{}>", st, tcx.item_name(tr.def_id), targs.join(","))
+                        }
+                    }
                     None => st,
                 }
             }
@@ -497,7 +515,7 @@ fn place_json<'tcx>(cx: &Cx<'tcx, '_>, p: &Place<'tcx>) -> String {
 
 fn fn_ref_json<'tcx>(cx: &Cx<'tcx, '_>, did: DefId, args: ty::GenericArgsRef<'tcx>) -> String {
     let tcx = cx.tcx;
-    let declared = canon(tcx, did);
+    let declared = canon_s(tcx, did);
     let mut resolved = declared.clone();
     let mut resolved_did = did;
     let mut res_kind = "direct";
@@ -508,7 +526,7 @@ fn fn_ref_json<'tcx>(cx: &Cx<'tcx, '_>, did: DefId, args: ty::GenericArgsRef<'tc
     // try_resolve can ICE on ill-formed args; guard by only resolving when args have no infer/bound vars
     if let Ok(Some(inst)) = Instance::try_resolve(tcx, cx.env, did, args) {
         let rd = inst.def_id();
-        let r = canon(tcx, rd);
+        let r = canon_s(tcx, rd);
         match inst.def {
             ty::InstanceKind::Item(_) => {
                 if is_trait_item && r != declared {
@@ -542,8 +560,9 @@ fn fn_ref_json<'tcx>(cx: &Cx<'tcx, '_>, did: DefId, args: ty::GenericArgsRef<'tc
         }
     }
     format!(
-        "{{\"fn\":{},\"decl\":{},\"res\":\"{}\",\"local\":{},\"ga\":[{}]}}",
+        "{{\"fn\":{},\"fnx\":{},\"decl\":{},\"res\":\"{}\",\"local\":{},\"ga\":[{}]}}",
         esc(&resolved),
+        esc(&canon(tcx, resolved_did)),
         esc(&declared),
         res_kind,
         resolved_did.is_local(),
